@@ -1573,6 +1573,12 @@ impl World {
         for u in &objects {
             let (leaves, w) = refstore::tree_rule(&st.trees[u]);
             let lw = d["winners"][u].as_str().map(|s| s.to_string());
+            if self.is(&["C07"]) && lw.is_none() {
+                // resolutions seal losers only: whatever was resolved, one live leaf carries the resolved
+                // state (independent resolutions included); an object left without any cannot be read,
+                // updated or resolved any more
+                viol!(self, "resolved-state-exists", "object-without-winner", "{}: object {} of replica {} has no winning revision: every leaf is sealed or dangling; revisions {:?}", when, u, r, st.trees[u]);
+            }
             if lw != w {
                 viol!(self, "winner-rule", "ref-winner", "{}: replica {} reports winner {:?} for {} but the rule gives {:?} (leaves {:?})", when, r, lw, u, w, leaves);
             }
